@@ -13,7 +13,9 @@ use serde_json::{json, Value};
 
 pub const ALPHABET: [char; 17] = ['"', '\\', '~', '%', '(', ')', ';', '#', '\'', '\n', '\t', '\u{1}', '\u{7f}', 'é', '日', 'a', ' '];
 
-pub const CARRIERS: [&str; 18] = [
+pub const CARRIERS: [&str; 30] = [
+    "name+framed", "iname+framed", "path+framed", "ipath+framed", "pool+framed", "xattr+framed", "xattr-match-attr+framed", "xattr-match-value+framed", "printf-literal+framed", "printf-octal+framed",
+    "strftime-A+framed", "strftime-T+framed",
     "printf-octal", "name", "iname", "path", "ipath", "pool", "xattr", "xattr-match-attr", "xattr-match-value", "fprint", "fprint0", "fprintf-file", "printf-literal", "fprintf-literal", "strftime-A", "strftime-C",
     "strftime-T", "device",
 ];
@@ -30,6 +32,12 @@ fn neutral(s: &str) -> String {
 
 /// Build the tree carrying `s` at `carrier`; None if the carrier cannot hold it.
 fn tree_for(carrier: &str, s: &str) -> Option<E> {
+    let (base, framed) = base_carrier(carrier);
+    let t = tree_for_base(base, s)?;
+    Some(if framed { E::and(t, E::A(Act::Print0)) } else { t })
+}
+
+fn tree_for_base(carrier: &str, s: &str) -> Option<E> {
     let st = s.to_string();
     Some(match carrier {
         "name" => E::T(Tst::Name(st)),
@@ -83,12 +91,13 @@ fn tree_for(carrier: &str, s: &str) -> Option<E> {
 }
 
 fn is_format_literal(carrier: &str) -> bool {
+    let (carrier, _) = base_carrier(carrier);
     carrier.ends_with("-literal") || carrier == "printf-octal"
 }
 
 /// How `s` must appear inside the carrier's string literal.
 fn literal_of(carrier: &str, s: &str) -> String {
-    if carrier.starts_with("strftime-") {
+    if base_carrier(carrier).0.starts_with("strftime-") {
         format!("%{s}")
     } else {
         s.to_string()
@@ -109,6 +118,15 @@ fn strings(x: &Sx, out: &mut Vec<String>) {
             out.push(s.clone())
         }
     });
+}
+
+/// carriers whose string lives in a test are also compiled next to an action that selects framed
+/// output (the two code generators are separate): carrier name with the suffix "+framed"
+fn base_carrier(carrier: &str) -> (&str, bool) {
+    match carrier.strip_suffix("+framed") {
+        Some(b) => (b, true),
+        None => (carrier, false),
+    }
 }
 
 fn compile_text(carrier: &str, s: &str) -> Result<Option<String>, String> {
@@ -222,8 +240,10 @@ pub fn judge(carrier: &str, s: &str) -> Verdict {
             return Verdict::Fail(format!("{carrier} with literal text {s:?}: policy fails at run time: {e}\nprogram:\n{p}"));
         }
         let want = format!("{s}\n");
-        let got: String = obs.outs.iter().map(|o| o.bytes.clone()).collect();
-        if obs.outs.len() != 1 || got != want {
+        // (a framed variant also runs -print0 afterwards; the format's own output comes first)
+        let n_expected = if base_carrier(carrier).1 { 2 } else { 1 };
+        let got: String = obs.outs.first().map(|o| o.bytes.clone()).unwrap_or_default();
+        if obs.outs.len() != n_expected || got != want {
             return Verdict::Fail(format!("{carrier}: literal text {s:?} is not printed verbatim: expected {want:?}, policy wrote {got:?}\nprogram:\n{p}"));
         }
     }
@@ -277,6 +297,38 @@ pub fn run(ctx: &Ctx) -> Report {
     });
     total.merge(ex);
     total.exhaustive_parts.push(format!("every string of length 1..={max_len} over the 17-symbol hostile alphabet x {} carriers", CARRIERS.len()));
+
+    // every three-digit octal escape of the format language, in both output modes: the program must
+    // read as two forms with the structure of the program for '\\101'
+    let mut st = Stats::new();
+    for framed in [false, true] {
+        let shape_of = |v: u16| -> Result<Vec<Sx>, String> {
+            let mut t = E::A(Act::Printf(vec![FEl::Lit("<".into()), FEl::E(Esc::Ascii(v)), FEl::Lit(">".into()), FEl::E(Esc::Newline)]));
+            if framed {
+                t = E::and(t, E::A(Act::FPrint("f".into())));
+            }
+            match policy::compile_tree(&t, None, "/") {
+                CompileOutcome::Ok(c) => sx::read_all(&c.text).map(|f| f.iter().map(shape).collect()).map_err(|e| format!("program does not read: {e}\n{}", c.text)),
+                CompileOutcome::Err(e) => Err(format!("compile error: {e}")),
+                CompileOutcome::Panic(p) => Err(format!("compile panicked: {p}")),
+            }
+        };
+        let reference = shape_of(0o101);
+        for v in 0..512u16 {
+            if v == 0x1e {
+                continue;
+            }
+            let verdict = match (&reference, shape_of(v)) {
+                (Ok(r), Ok(sv)) if *r == sv && sv.len() == 2 => Verdict::Pass { nt: true, class: "octal escape: well-formed, same structure" },
+                (Ok(_), Ok(_)) => Verdict::Fail(format!("-printf '<\\{v:03o}>\\n' (framed={framed}): the program's structure differs from the one for '\\101'")),
+                (_, Err(e)) => Verdict::Fail(format!("-printf '<\\{v:03o}>\\n' (framed={framed}): {e}")),
+                (Err(e), _) => Verdict::OracleBug(e.clone()),
+            };
+            st.record(&verdict, stable_hash(&(v, framed)), true, || json!({"kind": "carrier", "carrier": if framed { "printf-octal+framed" } else { "printf-octal" }, "string": char::from_u32(v as u32).map(|c| c.to_string()), "octal": format!("{v:03o}")}));
+        }
+    }
+    total.merge(st);
+    total.exhaustive_parts.push("all 512 three-digit octal escapes in a format, plain and framed mode: program well-formed with unchanged structure".into());
 
     // dictionary: tokens taken from the code generator's own sources (placeholders, literals)
     let dict = crate::dict::tokens();
